@@ -469,6 +469,11 @@ func (rm *RegistrationManager) NewRegistrationC2SWrapper(c2sw *pb.C2SWrapper, in
         }
 
 	clientAddr := net.IP(c2sw.GetRegistrationAddress())
+	if len(clientAddr) != net.IPv4len && len(clientAddr) != net.IPv6len {
+		// Not an address: it would reach the detector as text that it can not parse, and the
+		// announcement for this registration would be ignored.
+		return nil, fmt.Errorf("invalid registration address: %d bytes", len(clientAddr))
+	}
 
 	if reg.PhantomIp.To4() != nil && clientAddr.To4() == nil {
 		// This can happen if the client chooses from a set that contains no
